@@ -160,7 +160,8 @@ def run(chk, failed):
     chk.assumptions += [
         "handlers are called directly and sequentially on one module (interleavings are C08); metrics deletion (httpserver.Delete*Metrics) is not observed here (C17)",
         "expired/too_old: (now - expire-group) * 1000 is int64 arithmetic; theorems expired_spec/too_old_spec hold under in_i64((now-expire)*1000), "
-        "the example C09_expiry_guard_needed shows the wrap outside it; generated clocks and expire-group values stay far inside",
+        "the example C09_expiry_guard_needed shows the wrap outside it; generated expire-group values go up to the edge of that guard "
+        "(now0 + 2^63 div 1000), never beyond",
         "`newest commit` of a group is the timestamp of the last APPENDED commit (consumerGroup.lastCommit); the expiry oracle only claims "
         "something when every commit sent for the group is on one side of the expiry time",
         "a group left without topics: delete-topic keeps it listed (empty), delete-group-topic removes it (also when the named topic was not "
